@@ -77,6 +77,11 @@ func ModStmts() []Stmt {
 	add("replace", "replace a.com/x => \"./caf\\xe9\"\n")
 	add("replace", "replace a.com/x => \"./x\\ufffdy\" // s\n")
 	add("replace", "replace a.com/x => \"./\\377\\xc3\"\n")
+	// an invalid byte next to something else that needs quoting (space, bracket, comma, //), no other escape
+	add("replace", "replace a.com/x => \"../my dir\\xff\"\n")
+	add("replace", "replace a.com/x v1.0.0 => \"../a [fork]\\xfe\" // s\n")
+	add("replace", "replace a.com/x => \"../a,b\\377\"\n")
+	add("replace", "replace a.com/x => \"../a//b\\x80\"\n")
 	add("replace", "replace (\n\ta.com/x => ./x\n\t// b\n\tb.com/y v1.0.0 => c.com/z v1.2.0 // s\n)\n")
 	addFix("replace", "replace a.com/x v1 => b.com/y v1.1\n")
 	addFix("replace", "replace a.com/x => b.com/y v1\n")
@@ -142,6 +147,8 @@ func WorkStmts() []Stmt {
 	add("use", "use \"./o'brien\"\n")
 	add("use", "use \"./say\\\"hi\\\"\"\n")
 	add("use", "use \"./my modules\\x5c\"\n")
+	add("use", "use \"./my dir\\xff\"\n")
+	add("use", "use \"./a (old)\\xc3\" // s\n")
 	add("use", "use \"./caf\\xe9\"\n")
 	add("use", "use \"./a\\u00a0b\"\n")
 	add("use", "use \"./a\\134\" // s\n")
